@@ -27,6 +27,7 @@ let out = Buffer.create 65536
 let pr fmt = Printf.bprintf out fmt
 
 exception Script_error of string
+exception No_object
 
 type toks = { t : string array; mutable i : int }
 let toks line =
@@ -43,7 +44,7 @@ let tk_str tk : M.bstr =
   let s = next tk in
   let n = (String.length s - 1) / 2 in
   List.init n (fun k -> n_of_int (int_of_string ("0x" ^ String.sub s (1 + 2 * k) 2)))
-let tk_flt tk : M.f32 = n_of_z (Z.of_string ("0x" ^ next tk))
+let tk_flt tk : M.f32 = let s = next tk in if s = "u" then M.N0 else n_of_z (Z.of_string ("0x" ^ s))
 
 let hexs (s : M.bstr) = "x" ^ String.concat "" (List.map (fun b -> Printf.sprintf "%02x" (int_of_n b)) s)
 let hexf (f : M.f32) = Printf.sprintf "%08x" (int_of_n f)
@@ -154,7 +155,7 @@ let run_case (lines : string list) =
   let obj : (int, M.state) Hashtbl.t = Hashtbl.create 4 in
   let reg : (int, M.frame) Hashtbl.t = Hashtbl.create 4 in
   let pp = ref (M.new_param [] []) in
-  let o k = try Hashtbl.find obj k with Not_found -> raise (Script_error (Printf.sprintf "no-object %d" k)) in
+  let o k = try Hashtbl.find obj k with Not_found -> raise No_object in
   let apply k (op : M.op) =
     match M.step_x (o k) op with
     | M.ROk ((), s') -> Hashtbl.replace obj k s'; pr "ok\n"
@@ -165,7 +166,7 @@ let run_case (lines : string list) =
     let tk = toks line in
     if more tk then begin
       let cmd = next tk in
-      (match cmd with
+      (try (match cmd with
        | "new" -> let k = tk_int tk in Hashtbl.replace obj k M.init; pr "ok\n"
        | "load" | "loadx" ->
          let k = tk_int tk in let name = next tk in
@@ -186,6 +187,15 @@ let run_case (lines : string list) =
             String.iter (fun ch -> h := Z.logand (Z.mul (Z.logxor !h (Z.of_int (Char.code ch))) prime) mask) s;
             pr "ok %d %s\n" n (Z.format "%016x" !h)
           with Sys_error _ -> pr "nofile\n")
+       | "savefault" ->
+         let k = tk_int tk in let mode = next tk in let arg = next tk in
+         let name = if mode = "limit" then next tk else arg in
+         on_outcome (M.save_x (o k)) (fun bs ->
+           let open_ok = (mode = "limit") || (mode = "path" && arg = "/dev/full") in
+           let limit = if mode = "limit" then Some (n_of_z (Z.of_string arg)) else if arg = "/dev/full" then Some M.N0 else None in
+           match M.save_io bs open_ok limit with
+           | M.Normal disk -> write_file (!own_dir ^ "/" ^ name) disk; pr "ok\ndisk %d\n" (List.length disk)
+           | M.IoFailure _ -> pr "throw ios_failure\ndisk ?\n")
        | "snap" -> let k = tk_int tk in dump_all (o k)
        | "print" -> let _ = tk_int tk in pr "ok\n"
        | "drop" -> let k = tk_int tk in Hashtbl.remove obj k; pr "ok\n"
@@ -269,6 +279,7 @@ let run_case (lines : string list) =
          done;
          pr "ok U%s\nok I%s\n" (Buffer.contents bu) (Buffer.contents bi)
        | _ -> raise (Script_error ("unknown-command " ^ cmd)))
+       with No_object -> pr "noobj\n")
     end) lines;
   ignore reg
 
